@@ -1,20 +1,127 @@
 (* Properties_C13: write-complete and high-water-mark callbacks track the unsent backlog exactly.
-   Only statements, closed by [exact], with Print Assumptions and non-vacuity examples.
-   Same model as C01 (Conn_Model), tied to muduo/net/TcpConnection.cc by the correspondence
-   check.  The theorems of this file hold for EVERY state c of the model (reachable or not) and
-   every op, hence for every reachable state and every op list; the backlog is [outb].
-   Definitions used below (Conn_Proofs):
-     send_of c o = the sendInLoop a step executes: Some (block d, kernel answer k, queue p it
-                   starts from) for [Send d k] in state Connected (p = pending c) and for
-                   [RunOne k] whose oldest functor is [FSend _ d] while the connection is not
-                   Disconnected (p = the rest of the queue); None otherwise (C01_send_of_def);
-     cbs l       = the FWriteComplete / FHighWater functors of queue l, in order;
-     cb_of ev    = the functor whose execution emits event ev (EvWC / EvHWM n). *)
+   Only statements, closed by [exact], each followed by Print Assumptions, and non-vacuity examples.
+   Same model as C01 (Conn_Model; see the header of Properties_C01.v for the op vocabulary); the
+   backlog is [outb], the mark [hwm], [has_wc] / [has_hwm] say which callbacks are installed.
+   The per-step theorems hold for EVERY state c of the model (reachable or not) and every op.
+   Tie to the C++: the guards of sendInLoop / handleWrite of the CURRENT TcpConnection.cc are
+   regenerated (Gen_Conn.v) and the model functions are proved equal to the functions
+   re-assembled from them (section "source"); differential execution + the property text as an
+   oracle on the implementation's output (bin/check C13). *)
 From Coq Require Import List ZArith Lia Bool Arith NArith.
 From Coq.Strings Require Import Byte.
-From Muduo Require Import Conn_Model Conn_Proofs.
+From Muduo Require Import Gen_Consts Gen_Conn Conn_Model Conn_Proofs Conn_Trace Conn_GenTie.
 Import ListNotations.
 
+(* ========================================================================================== *)
+(* HEADLINE: the callbacks of a whole history                                                   *)
+(* ========================================================================================== *)
+(* For every history from the initial state (all send sizes, marks, kernel acceptance patterns,
+   thread assignments): the write-complete / high-water callbacks that have run - in order, with
+   their arguments - followed by those still waiting in the loop's task queue are exactly what
+   the property text prescribes for the steps of the history, in step order ([cb_due], spelled
+   out below): one write-complete per emptied backlog, one high-water per upward crossing
+   carrying the resulting backlog; nothing else, nothing missing, nothing twice. *)
+Theorem C13_callbacks_trace : forall mark wc hw ops c e,
+  run (init mark wc hw) ops = Ok (c, e) ->
+  cb_events e ++ cbs (pending c) = flat_map cb_due (trace (init mark wc hw) ops).
+Proof. exact callbacks_trace. Qed.
+Print Assumptions C13_callbacks_trace.
+
+(* what is prescribed for one step from c to c' by op o *)
+Theorem C13_cb_due_def : forall c o c',
+  cb_due (c, o, c') =
+  (if wc_due c o c' then [FWriteComplete] else []) ++
+  (if hw_due c o c' then [FHighWater (length (outb c'))] else []).
+Proof. exact cb_due_unfold. Qed.
+Print Assumptions C13_cb_due_def.
+
+(* write-complete: the callback is installed and either the step is a sendInLoop whose direct
+   write took the whole block - the empty block included - while nothing was queued, or it is a
+   writability event after which a non-empty backlog is empty *)
+Theorem C13_wc_due_def : forall c o c',
+  wc_due c o c' =
+  (has_wc c &&
+   match send_of c o with
+   | Some (d, k, _) =>
+       negb (writing c) && (length (outb c) =? 0) &&
+       match taken (effective c k) (length d) with Some n => n =? length d | None => false end
+   | None =>
+       match o with
+       | EvWritable _ => negb (length (outb c) =? 0) && (length (outb c') =? 0)
+       | _ => false
+       end
+   end)%bool.
+Proof. exact wc_due_unfold. Qed.
+Print Assumptions C13_wc_due_def.
+
+(* high-water: the callback is installed and the step is a sendInLoop that raises the backlog
+   from below the mark to at or above it (so never for mark 0, never on a drain) *)
+Theorem C13_hw_due_def : forall c o c',
+  hw_due c o c' =
+  (has_hwm c &&
+   match send_of c o with
+   | Some _ => (N.of_nat (length (outb c)) <? hwm c)%N && (hwm c <=? N.of_nat (length (outb c')))%N
+   | None => false
+   end)%bool.
+Proof. exact hw_due_unfold. Qed.
+Print Assumptions C13_hw_due_def.
+
+(* the sendInLoop a step executes: block, kernel answer, functor queue it starts from *)
+Theorem C13_send_of_def : forall c o,
+  send_of c o =
+  match o with
+  | Send d k => if cstate_eqb (st c) Connected then Some (d, k, pending c) else None
+  | RunOne k =>
+      match pending c with
+      | FSend _ d :: rest => if cstate_eqb (st c) Disconnected then None else Some (d, k, rest)
+      | _ => None
+      end
+  | _ => None
+  end.
+Proof. exact send_of_unfold. Qed.
+Print Assumptions C13_send_of_def.
+
+Theorem C13_cb_events_def : forall e,
+  cb_events e = flat_map (fun ev => match ev with
+                                    | EvWC => [FWriteComplete]
+                                    | EvHWM n => [FHighWater n]
+                                    | _ => []
+                                    end) e.
+Proof. exact cb_events_unfold. Qed.
+Print Assumptions C13_cb_events_def.
+
+Theorem C13_cbs_def : forall l,
+  cbs l = filter (fun f => match f with FWriteComplete | FHighWater _ => true | _ => false end) l.
+Proof. exact cbs_unfold. Qed.
+Print Assumptions C13_cbs_def.
+
+Theorem C13_trace_def : forall c ops,
+  trace c ops = match ops with
+                | [] => []
+                | o :: r => match step c o with
+                            | Ok (c1, _) => (c, o, c1) :: trace c1 r
+                            | _ => []
+                            end
+                end.
+Proof. exact trace_unfold. Qed.
+Print Assumptions C13_trace_def.
+
+(* never without a preceding send(): a history in which no sendInLoop ran has no notification,
+   neither run nor queued *)
+Theorem C13_no_callback_without_send : forall mark wc hw ops c e,
+  run (init mark wc hw) ops = Ok (c, e) ->
+  (forall x, In x (trace (init mark wc hw) ops) -> send_of (pre x) (opx x) = None) ->
+  cb_events e = [] /\ cbs (pending c) = [].
+Proof. exact no_callback_without_send. Qed.
+Print Assumptions C13_no_callback_without_send.
+
+Theorem C13_pre_opx_post_def : forall c o c', pre (c, o, c') = c /\ opx (c, o, c') = o /\ post (c, o, c') = c'.
+Proof. exact pre_opx_post_unfold. Qed.
+Print Assumptions C13_pre_opx_post_def.
+
+(* ========================================================================================== *)
+(* Per step, for every state                                                                    *)
+(* ========================================================================================== *)
 (* A sendInLoop queues at most one functor.  It queues FWriteComplete iff the callback is
    installed, nothing was queued, write interest was off and the kernel took the whole block
    (the empty block included; a failed write of an empty block does not count); the backlog is
@@ -60,14 +167,9 @@ Theorem C13_only_sends_and_drains_queue_callbacks : forall c o c' e, step c o = 
 Proof. exact P13_only_sends_and_drains. Qed.
 Print Assumptions C13_only_sends_and_drains_queue_callbacks.
 
-Theorem C13_cbs_def : forall l,
-  cbs l = filter (fun f => match f with FWriteComplete | FHighWater _ => true | _ => false end) l.
-Proof. reflexivity. Qed.
-Print Assumptions C13_cbs_def.
-
-(* the user callbacks run only in RunOne steps (the loop thread draining its functor queue),
-   exactly when the oldest functor is the corresponding one, with the size recorded at the
-   crossing, and such a step does nothing else *)
+(* both run on the connection's loop thread: the user callbacks run only in RunOne steps (the
+   loop draining its task queue), exactly when the oldest functor is the corresponding one, with
+   the size recorded at the crossing, and such a step does nothing else *)
 Theorem C13_on_loop_thread :
   (forall c o c' e ev f, step c o = Ok (c', e) -> In ev e -> cb_of ev = Some f ->
      exists k rest, o = RunOne k /\ pending c = f :: rest /\ c' = set_pending c rest /\ e = [ev]) /\
@@ -84,11 +186,12 @@ Theorem C13_cb_of_def : forall ev,
              | EvHWM n => Some (FHighWater n)
              | _ => None
              end.
-Proof. reflexivity. Qed.
+Proof. exact cb_of_unfold. Qed.
 Print Assumptions C13_cb_of_def.
 
-(* between two queueings of the high-water callback the backlog has been below the mark:
-   right after the first it is at or above the (constant) mark, right before the second below *)
+(* not again until the backlog has fallen below the mark: between two queueings of the
+   high-water callback the backlog has been below the mark - right after the first it is at or
+   above the (constant) mark, right before the second below *)
 Theorem C13_no_repeat_until_below :
   forall c1 o1 c1' e1 d1 k1 p1 n1 ops c2 e o2 c2' e2 d2 k2 p2 n2,
   step c1 o1 = Ok (c1', e1) -> send_of c1 o1 = Some (d1, k1, p1) ->
@@ -107,10 +210,43 @@ Theorem C13_settings_constant : forall c o c' e, step c o = Ok (c', e) ->
 Proof. exact step_const. Qed.
 Print Assumptions C13_settings_constant.
 
-(* ---- non-vacuity (mark 4): empty block and whole block (WC each), partial write (backlog 3),
-   a send queued behind it that lands exactly on the mark (HW 4), one above the mark (nothing),
-   partial drain to 3, a crossing again (HW 5), a failed drain, the full drain (WC), and the
-   five callbacks run in queueing order ---------------------------------------------------- *)
+(* ========================================================================================== *)
+(* Source: the tests of the current TcpConnection.cc                                            *)
+(* ========================================================================================== *)
+(* the crossing test as it stands in the source (`oldLen + remaining >= highWaterMark_ &&
+   oldLen < highWaterMark_ && highWaterMarkCallback_`, regenerated into Gen_Conn.v) is the
+   model's: `>=` -> `>`, a dropped `oldLen <`, `<` -> `<=` all break this equation *)
+Theorem C13_source_crossing_test : forall mark old remaining has,
+  sendInLoop_hwm_test has (Z.of_N mark) (Z.of_nat old) (Z.of_nat remaining) =
+  ((mark <=? N.of_nat (old + remaining))%N && (N.of_nat old <? mark)%N && has)%bool.
+Proof. exact source_crossing_test. Qed.
+Print Assumptions C13_source_crossing_test.
+
+(* the value handed to the callback is oldLen + remaining = the resulting backlog *)
+Theorem C13_source_hwm_arg : forall old remaining,
+  Z.to_nat (sendInLoop_hwm_arg (Z.of_nat old) (Z.of_nat remaining)) = old + remaining.
+Proof. exact tie_hwm_arg. Qed.
+Print Assumptions C13_source_hwm_arg.
+
+(* the model's sendInLoop / handleWrite are the functions re-assembled from the regenerated
+   guards (direct-write test, `remaining == 0 && writeCompleteCallback_`, the errno tests,
+   `!faultError && remaining > 0`, the crossing test; `n > 0`, `readableBytes() == 0`,
+   `writeCompleteCallback_`, `state_ == kDisconnecting`) following the C++ control flow *)
+Theorem C13_sendInLoop_is_source : forall c d k, sendInLoop_src c d k = sendInLoop c d k.
+Proof. exact sendInLoop_is_source. Qed.
+Print Assumptions C13_sendInLoop_is_source.
+
+Theorem C13_handleWrite_is_source : forall c k, handleWrite_src c k = handleWrite c k.
+Proof. exact handleWrite_is_source. Qed.
+Print Assumptions C13_handleWrite_is_source.
+
+(* ========================================================================================== *)
+(* Non-vacuity                                                                                  *)
+(* ========================================================================================== *)
+(* mark 4: empty block and whole block (WC each), partial write (backlog 3), a send queued behind
+   it that lands exactly on the mark (HW 4), one above the mark (nothing), partial drain to 3, a
+   crossing again (HW 5), a failed drain, the full drain (WC), and the five callbacks run in
+   queueing order *)
 Definition ex_ops : list op :=
   [ Establish;
     Send [] AcceptAll;
@@ -129,6 +265,15 @@ Example ex_run :
             = Ok (c, [EvUp; EvErrorLogged; EvWC; EvWC; EvHWM 4; EvHWM 5; EvWC]) /\
     wire c = [x61; x62; x63; x64; x65; x66; x67; x68; x69; x6a] /\ outb c = [] /\ pending c = [].
 Proof. vm_compute. eexists. repeat split. Qed.
+
+(* the prescription of the headline theorem on that history, and on its first ten ops (before
+   the loop runs its tasks: everything still queued) *)
+Example ex_due :
+  flat_map cb_due (trace (init 4%N true true) ex_ops)
+  = [FWriteComplete; FWriteComplete; FHighWater 4; FHighWater 5; FWriteComplete] /\
+  exists c e, run (init 4%N true true) (firstn 10 ex_ops) = Ok (c, e) /\ cb_events e = [] /\
+    cbs (pending c) = [FWriteComplete; FWriteComplete; FHighWater 4; FHighWater 5; FWriteComplete].
+Proof. split; [vm_compute; reflexivity|]. vm_compute. eexists _, _. repeat split. Qed.
 
 (* a reachable state just below the mark in which the next send crosses it, and one in which
    the next writability event drains the backlog *)
